@@ -177,7 +177,8 @@ func extract(a hx.ExtractArgs) error {
 	var b strings.Builder
 	b.WriteString("/- GENERATED on every run by the harness extractor (c10 extract) from /repo's working tree. Do not edit.\n")
 	b.WriteString("   Sources: sql/encodings/rangemap.go, engine.go, sql/planbuilder/parse.go, sql/analyzer/indexed_joins.go, sql/mysql_db/auth.go,\n")
-	b.WriteString("   internal/strings/unquote.go (go/ast); RangeMap tables of latin1/utf16/utf32 dumped from the compiled code -/\n")
+	b.WriteString("   internal/strings/unquote.go, sql/expression/function/locate.go, sql/planbuilder/proc.go, create_ddl.go (go/ast);\n")
+	b.WriteString("   case mappings and parser options computed by the compiled code; RangeMap tables of latin1/utf16/utf32 dumped from the compiled code -/\n")
 	b.WriteString("import Gms.Model.RangeMap\nnamespace Gms.Generated.C10\nopen Gms.RangeMap\n\n")
 
 	// 1. length guards of the conversion loops
@@ -295,6 +296,11 @@ func extract(a hx.ExtractArgs) error {
 		return fmt.Errorf("Unquote: case 'u' guard not found")
 	}
 	fmt.Fprintf(&b, "def unquoteUnicodeGuard : String := %s\n\n", hx.LeanString(uguard))
+
+	// 4b. Locate.Eval, case mappings, BuildProcedureHelper, parser options of the modes (extract2.go)
+	if err := extractMore(a, &b); err != nil {
+		return err
+	}
 
 	// 5. tables
 	have := map[string]bool{}
